@@ -81,20 +81,28 @@ def r04_1(ctx):
                     detail=f"(a, b)=({a}, {b}) on a {kind}: returns {got}, Green's formula gives {want}")
         else:
             out.ok(fn.qname, f"(a, b, nnodes)=({a}, {b}, {nn}) on a {kind} -> sum/{a + 1}", where=fn.where())
+    # area = the moment of order (0, 0): the boundary integrals of x^1 y^0 over every curve, nnodes forwarded, sum / 1
+    # (judged on what reaches the per-curve integral, so that it does not matter through which helper it goes)
     fa = ctx.fn("shape.IntegrateShape.area")
-    S = Obj("S")
+    J = [Obj("j0"), Obj("j1"), Obj("j2")]
+    vals = {"j0": Fr(5), "j1": Fr(7), "j2": Fr(-3)}
+    S = Obj("S", jordans=tuple(J), kind="SimpleShape")
     seen = []
 
     def hook2(rn, ev, call, name, recv, args, kwargs):
-        if name == "polynomial":
+        if name == "isinstance":
+            return True
+        if name == "vertical":
             seen.append(tuple(args))
-            return "AREA"
+            return vals[args[0]._name]
         return NotImplemented
     try:
-        got = Runner(ctx, set(), hook2).call_fn(fa, [S, 11])
-        ok = got == "AREA" and seen == [(S, 0, 0, 11)]
+        got = Runner(ctx, {fa.qname, fn.qname}, hook2).call_fn(fa, [S, 11])
+        got_calls = sorted(((c[0]._name,) + tuple(c[1:]) for c in seen), key=str)
+        ok = got == 9 and got_calls == sorted(((j._name, 1, 0, 11) for j in J), key=str)
         (out.ok if ok else out.bad)(fa.qname, "area = polynomial(shape, 0, 0, nnodes)" if ok else
-                                    f"area is not the moment of order (0, 0): {seen}", where=fa.where())
+                                    "area is not the moment of order (0, 0)", where=fa.where(),
+                                    **({} if ok else {"detail": f"per-curve integrals {got_calls} -> {got}"}))
     except (Undecided, Raised) as ex:
         out.undecided(fa.qname, str(ex), where=fa.where())
     return out
